@@ -80,6 +80,17 @@ func (sw *simWriter) write(p []byte) (n int, err error) {
 			for i := 0; i < k; i++ {
 				w.yield(ySiteStall)
 			}
+		case "hang":
+			// a destination that never comes back (a dead NFS mount, a full pipe nobody reads): the calling
+			// task stays inside this Write for the rest of the episode
+			w.fired[fk]++
+			if !w.quiet {
+				w.emit(scen.Event{T: task, K: "hang", Op: w.curOp[task], Ph: w.curPh[task], W: sw.id, A: attempt})
+			}
+			if w.sch != nil {
+				w.sch.hang() // does not return
+			}
+			fk = ""
 		default:
 			fk = ""
 		}
